@@ -181,6 +181,21 @@ def reuse_sequence(case, acc, seed_for_forms):
         HUB.case = dict(case, kind="diagram-reuse", forms_seed=seed_for_forms, step=k)
         outcomes.append(run(rule, ev)[0])
         acc.evaluated()
+    # the same rule object re-pointed to a second sub-system with the same component names (one diagram shared by
+    # services.billing / services.shipping): what counts is the base module the object has when it is applied
+    if "." in BASE and all("." not in c for c in case["comps"]):
+        base2 = BASE + "2"
+        mods2 = sorted(set(case["mods"]) | {base2} | {f"{base2}.{c}" for c in case["comps"]})
+        conf1 = sorted((f"{BASE}.{a}", f"{BASE}.{b}") for a, b in rel)
+        # sub-system 2 draws the arrows the other way round (violating unless the diagram is symmetric)
+        imps2 = sorted(set(conf1) | {(f"{base2}.{b}", f"{base2}.{a}") for a, b in rel})
+        ev2 = build(mods2, imps2)
+        HUB.case = dict(case, kind="diagram-reuse", forms_seed=seed_for_forms, step="re-based")
+        for b in (BASE, base2, BASE):
+            rule.with_base_module(b)
+            outcomes.append(run(rule, ev2)[0])
+            acc.evaluated()
+        acc.count("reused_rule_objects_rebased")
     acc.count("reused_rule_sequences")
     if len(set(outcomes)) > 1:
         acc.count("reused_rule_sequences_with_changing_verdict")
